@@ -352,12 +352,18 @@ const (
 // against the property statement.
 func classifyValue(h HeaderID, v string) valueClass {
 	for i := 0; i < len(v); i++ {
-		if c := v[i]; c == '\r' || c == '\n' || c == 0 {
+		if c := v[i]; c == '\n' || c == 0 {
 			return vOpen
 		}
 	}
+	// A CR inside the value (a stray CR before the line terminator) is part of
+	// the value: it makes Upgrade, Version and Key values wrong; for Host and
+	// Connection the statement leaves it open.
 	switch h {
 	case HHost:
+		if strings.Contains(v, "\r") {
+			return vOpen
+		}
 		// "carrying Host": any value; the empty value is open (net/http
 		// cannot tell it from an absent header).
 		if v == "" {
@@ -429,6 +435,16 @@ func IsUnicodeFoldOnly(v, token string) bool {
 	return !asciiEqualFold(v, token) && strings.EqualFold(v, token)
 }
 
+// lineContent is what a line holds once its terminator - LF with at most one
+// CR before it - is taken away: with a bare-LF line end a CR that ends the
+// text is part of the terminator, with CRLF it is content.
+func lineContent(text, lineEnd string) string {
+	if eol(lineEnd) == "\n" && strings.HasSuffix(text, "\r") {
+		return text[:len(text)-1]
+	}
+	return text
+}
+
 // Classify is the acceptance model of property C09.
 func Classify(r *Request, c *Config) Verdict {
 	var v Verdict
@@ -449,9 +465,18 @@ func Classify(r *Request, c *Config) Verdict {
 	} else if r.Method != "GET" {
 		wrong("method "+r.Method, 405)
 	}
-	if r.Target == "" || strings.ContainsAny(r.Target, " \t\r\n") {
+	switch {
+	case strings.Contains(r.Target, " ") && !strings.ContainsAny(r.Target, "\r\n") && c.Kind == Raw:
+		// not `METHOD SP target SP version`: more than three fields, doubled,
+		// leading or trailing spaces. (For HTTPUpgrader net/http decides.)
+		v.LineParsed = false
+		wrong("request line is not METHOD SP target SP version (extra space)", 400)
+	case r.Target == "" || strings.ContainsAny(r.Target, " \t\r\n"):
 		v.LineParsed = false
 		open("odd request target")
+	}
+	if strings.ContainsAny(r.Target, " \t\r\n") || r.Target == "" {
+		// classified above
 	} else if c.Kind == HTTP && IsAbsoluteTarget(r.Target) {
 		open("absolute-URI target (net/http takes Host from it)")
 	}
@@ -459,10 +484,10 @@ func Classify(r *Request, c *Config) Verdict {
 		v.LineParsed = false
 		wrong("no version token", 400)
 	} else {
-		switch k, major, minor := ParseVersion(r.Version); k {
+		switch k, major, minor := ParseVersion(lineContent(r.Version, r.LineEOL)); k {
 		case VersionMalformed:
 			v.LineParsed = false
-			wrong("malformed version token "+r.Version, 400)
+			wrong(fmt.Sprintf("malformed version token %q", r.Version), 400)
 		case VersionLeadingZero:
 			v.LineParsed = false
 			open("version with leading zeros")
@@ -485,7 +510,17 @@ func Classify(r *Request, c *Config) Verdict {
 	var protoVals, extVals []string
 	for _, l := range r.Lines {
 		if l.NoColon {
-			if l.Name == "" || l.Name[0] == ' ' || l.Name[0] == '\t' || strings.ContainsAny(l.Name, ":\r\n") {
+			name := lineContent(l.Name, l.EOL)
+			if name == "" {
+				// a genuinely empty line ends the header block here: whatever
+				// follows is not part of the request head
+				open("empty line before the end of the header block (later lines are not part of the head)")
+				break
+			} else if strings.Trim(name, "\r") == "" && c.Kind == Raw {
+				// a would-be blank line with stray CRs before its terminator: the
+				// CRs are content, the line is neither empty nor a header
+				wrong("line of stray CR (not an empty line, no colon)", 400)
+			} else if l.Name == "" || l.Name[0] == ' ' || l.Name[0] == '\t' || strings.ContainsAny(l.Name, ":\r\n") {
 				// (a line starting with a blank is a folded continuation to net/http)
 				open("odd malformed line")
 			} else {
@@ -493,19 +528,25 @@ func Classify(r *Request, c *Config) Verdict {
 			}
 			continue
 		}
-		if !IsToken(l.Name) || strings.Trim(l.Lead+l.Trail, " \t") != "" {
+		if !IsToken(l.Name) || strings.Trim(l.Lead, " \t") != "" {
 			open("odd header line")
 			continue
 		}
-		val := TrimBlanks(l.Value)
-		if strings.ContainsAny(val, "\r\n") {
+		// Everything between the colon and the line terminator is the value; a
+		// CR that is not part of the terminator belongs to it (so does Trail).
+		val := TrimBlanks(lineContent(l.Lead+l.Value+l.Trail, l.EOL))
+		oddValue := strings.ContainsAny(val, "\n\x00") || (c.Kind == HTTP && strings.Contains(val, "\r"))
+		if oddValue {
 			open("line break inside a value")
-			continue
 		}
 		known := false
 		for h := HeaderID(0); h < NumRequired; h++ {
 			if asciiEqualFold(l.Name, RequiredNames[h]) {
-				copies[h] = append(copies[h], classifyValue(h, val))
+				k := classifyValue(h, val)
+				if oddValue {
+					k = vOpen
+				}
+				copies[h] = append(copies[h], k)
 				if h == HKey && len(val) == 24 {
 					v.Keys = append(v.Keys, val)
 				}
